@@ -225,9 +225,19 @@ impl<D> Serialize for DicomJson<&'_ InMemElement<D>> {
                 // no-op
             }
             DicomValue::Primitive(v) => match vr {
+                VR::AT => match v {
+                    // attribute tags are written as "GGGGEEEE"
+                    PrimitiveValue::Tags(tags) => {
+                        let tags: Vec<DicomJson<Tag>> =
+                            tags.iter().copied().map(DicomJson::from).collect();
+                        serializer.serialize_entry("Value", &tags)?;
+                    }
+                    _ => {
+                        serializer.serialize_entry("Value", &AsStrings::from(v))?;
+                    }
+                },
                 VR::AE
                 | VR::AS
-                | VR::AT
                 | VR::CS
                 | VR::DA
                 | VR::DT
